@@ -51,7 +51,7 @@ def _v(ctx, prop, checks, what, kind, sample, runner, extra=None):
     if prop not in checks:
         return
     data = {"runner": "fam.history", "property": prop, "kind": kind.name, "sample": sample,
-            "history": hist_desc(runner.steps), "hseed": runner.hseed}
+            "history": hist_desc(runner.steps), "hseed": runner.hseed, "core": runner.core, "id3_opts": runner.id3_opts, "nops": runner.nops}
     if extra:
         data.update(extra)
     ctx.violation("oracle", "%s %s: %s" % (prop, kind.name, what), data)
@@ -233,11 +233,15 @@ def c09_default_equivalence(ctx, checks, kind, sample, runner, st):
                {"info_padding": log[0][0], "delta": len(b1.getvalue()) - len(st.before)})
 
 
-def run_history(ctx, checks, kind, sample, data, hseed, nops, id3_opts=False, ops=None):
+def run_history(ctx, checks, kind, sample, data, hseed, nops, id3_opts=False, ops=None, core=None):
     import random
     rng = random.Random(hseed)
     runner = Runner(kind, data, rng, id3_opts=id3_opts)
     runner.hseed = hseed
+    runner.core = core
+    runner.nops = nops
+    if core is not None:
+        ops = [(op, (arg if kind.padding or op != "save" else "none")) for op, arg in CORE[core]]
     info0 = load_info(kind, data)
     if isinstance(info0, tuple):
         info0 = None
@@ -389,10 +393,8 @@ def shared_run(ctx, checks, nhist, nops, kinds=None, id3_opts=True):
                 c07_scenario(ctx, checks, kind, sample, data)
             for h in range(-len(CORE), nhist):
                 hseed = (base + zlib.crc32(repr((kname, sample, h)).encode())) & 0x7FFFFFFF
-                core = None
-                if h < 0:
-                    core = [(op, (arg if kind.padding or op != "save" else "none")) for op, arg in CORE[-h - 1]]
-                runner, nontrivial = run_history(ctx, checks, kind, sample, data, hseed, nops, id3_opts=id3_opts and h % 2 == 1, ops=core)
+                runner, nontrivial = run_history(ctx, checks, kind, sample, data, hseed, nops, id3_opts=id3_opts and h % 2 == 1,
+                                                 core=(-h - 1 if h < 0 else None))
                 n += 1
                 ctx.oracle_cases += 1
                 ctx.count("kind:" + kname)
@@ -406,16 +408,13 @@ def shared_run(ctx, checks, nhist, nops, kinds=None, id3_opts=True):
 
 def replay_history(ctx, checks, data):
     kind = KINDS[data["kind"]]
+    name = data["sample"].replace("+history", "")
     for sample, d in kind.samples():
-        if sample == data["sample"]:
+        if sample == name:
             before = len(ctx.violations)
-            ops = []
-            for b in data["history"]:
-                if "(" in b:
-                    op, arg = b[:-1].split("(", 1)
-                    ops.append((op, arg))
-                else:
-                    ops.append((b, None))
-            run_history(ctx, checks, kind, sample, d, data.get("hseed", 0), len(ops), id3_opts=True, ops=None)
+            run_history(ctx, checks, kind, sample, d, data.get("hseed", 0), data.get("nops", len(data["history"])), id3_opts=data.get("id3_opts", False),
+                        core=data.get("core"))
+            if "C07" in checks:
+                c07_scenario(ctx, checks, kind, sample, d)
             return len(ctx.violations) > before
     return False
